@@ -168,8 +168,6 @@ Definition site_table : list (string * string * string * string * just * string)
    (Guard (@bsc_recover_safe)), "rlp.Encode fails only on a negative big.Int; the chain id is built with SetUint64 (non-negative), all other items are byte slices / uint64 (model: bsc_recover false never panics; the pinned behaviour is bsc_recover true, refuted)");
   ("x/xibc/clients/light-clients/bsc/types/header.go", "sealHash", "index", "hash[:0]",
    Benign, "zero-length prefix of a 32-byte array");
-  ("x/xibc/clients/light-clients/bsc/types/store.go", "DeleteAllSigner", "index", "keys[1]",
-   (Guard (@delete_all_signer_no_panic)), "every key under the recentSingers prefix is written by SetSigner as ""recentSingers/<height>"" (state invariant store_wf, preserved by every handler: handle_xprop_safe)");
   ("x/xibc/clients/light-clients/bsc/types/store.go", "DeleteSigner", "lib", "store.Delete(keyBz)",
    Benign, "non-empty key built from a constant prefix");
   ("x/xibc/clients/light-clients/bsc/types/store.go", "GetConsensusState", "lib", "store.Get(host.ConsensusStateKey(height))",
@@ -194,6 +192,8 @@ Definition site_table : list (string * string * string * string * just * string)
    Benign, "non-empty key ""recentSingers/.."", value = signer.Bytes() (20 bytes)");
   ("x/xibc/clients/light-clients/bsc/types/store.go", "deleteConsensusState", "lib", "clientStore.Delete(key)",
    Benign, "non-empty key built from a constant prefix");
+  ("x/xibc/clients/light-clients/bsc/types/store.go", "parseRecentSignerKey", "index", "keys[1]",
+   (Guard (@delete_all_signer_strict_no_panic)), "guarded by the len(keys) != 2 test just above (0d61436; model delete_all_signer_strict, which never panics; the pinned parser indexed unconditionally: delete_all_signer, C15_bsc_signer_key_refuted)");
   ("x/xibc/clients/light-clients/eth/types/hashing.go", "rlpHash", "assert", "hasherPool.Get().(crypto.KeccakState)",
    Benign, "the pool only ever holds values made by its New function (KeccakState)");
   ("x/xibc/clients/light-clients/eth/types/hashing.go", "rlpHash", "lib", "rlp.Encode(sha, x)",
